@@ -578,7 +578,7 @@ def main(tier: str, seed: int, replay: str | None = None) -> int:
     cfg = TIERS[tier]
     procs = min(cfg['procs'], max(2, (os.cpu_count() or 4) - 2))
     procs = int(os.environ.get('VERIF_PROCS', procs))
-    idxs = list(range(cfg['cases']))
+    idxs = list(range(int(cfg['cases'] * float(os.environ.get('VERIF_CASE_SCALE', '1')))))  # scale: development aid
     batches = [(seed, tier, idxs[i::procs]) for i in range(procs)]
     results = core.pmap(run_batch, batches, workers=procs)
     shrunk: set[str] = set()
